@@ -382,6 +382,25 @@ def disp5(ctx) -> List[Ob]:
             stmt = A.enclosing_stmt(c)
             body = _containing_list(stmt)
             prev = None
+            # look backwards in the statement list; when the call sits in an arm of an if-statement that only
+            # chooses the order of the two targets, go on before that if-statement
+            hops = 0
+            while body is not None and prev is None and hops < 3:
+                i = body.index(stmt)
+                found_any = False
+                for s in reversed(body[:i]):
+                    if isinstance(s, ast.Expr) and isinstance(s.value, ast.Call):
+                        f = s.value.func
+                        if isinstance(f, ast.Attribute) and ((f.attr == "append" and isinstance(f.value, ast.Attribute) and f.value.attr == "instructions") or f.attr == "codegen"):
+                            found_any = True
+                            break
+                if found_any:
+                    break
+                par_ = A.parent(stmt)
+                if not isinstance(par_, ast.If):
+                    break
+                stmt, body = par_, _containing_list(par_)
+                hops += 1
             if body is not None:
                 i = body.index(stmt)
                 for s in reversed(body[:i]):
@@ -732,6 +751,11 @@ def disp7(ctx) -> List[Ob]:
     for lp in loops:
         attr = lp.iter.attr
         edge_calls = [c for c in method_calls(lp, "edge")]
+        # a local helper that draws the edge and forwards its keyword arguments (`def draw(src, dst, **attrs):
+        # .. g.edge(.., **attrs)`) counts as the edge call, with the keywords of the call site
+        fwd = {f_.name for f_ in ctx.prog.functions if f_.parent_fn is re_ and method_calls(f_.node, "edge") and f_.node.args.kwarg is not None
+               and any(any(k.arg is None and isinstance(k.value, ast.Name) and k.value.id == f_.node.args.kwarg.arg for k in c_.keywords) for c_ in method_calls(f_.node, "edge"))}
+        edge_calls += [c for c in A.walk_no_nested(lp) if isinstance(c, ast.Call) and isinstance(c.func, ast.Name) and c.func.id in fwd]
         def _dashed(c_) -> bool:
             for k in c_.keywords:
                 if k.arg == "style" and isinstance(k.value, ast.Constant) and k.value.value == "dashed":
